@@ -26,6 +26,7 @@ import (
 	"sort"
 	"strconv"
 	"strings"
+	"time"
 
 	"github.com/parquet-go/parquet-go"
 	"github.com/parquet-go/parquet-go/bloom"
@@ -548,7 +549,8 @@ type c07Chunk struct {
 	Pages    [][][]byte // non-null values read back, per data page
 	Filter   []byte     // stored filter bytes (decompressed), nil if no filter
 	NumVals  int64
-	DictEnc  bool
+	DictEnc  bool // some page is dictionary-encoded
+	PlainEnc bool // some page is not
 }
 
 // c07Verify opens the file and evaluates the property on every chunk that
@@ -608,6 +610,8 @@ func c07Verify(rep *c07Rep, cs *c07File, data []byte, copied int64, one int) boo
 					}
 					if pg.Dictionary() != nil {
 						ch.DictEnc = true
+					} else {
+						ch.PlainEnc = true
 					}
 					vals := make([]parquet.Value, pg.NumValues())
 					k, _ := pg.Values().ReadValues(vals)
@@ -656,17 +660,16 @@ func c07Verify(rep *c07Rep, cs *c07File, data []byte, copied int64, one int) boo
 					c.Res.Evaluations++
 				}
 				if res, valid := check(b); valid && !res {
-					class := "written-value-absent"
-					if cs.DictMax > 0 && col.Enc == "dict" {
-						class = "dict-fallback-value-absent"
-					}
-					fail(class, fmt.Sprintf("path %s, row group %d, column %d (%s %s %s, %d bits/value): value %x was written but BloomFilter.Check answers false (filter of %d bytes, %d values)",
+					fail("written-value-absent", fmt.Sprintf("path %s, row group %d, column %d (%s %s %s, %d bits/value): value %x was written but BloomFilter.Check answers false (filter of %d bytes, %d values)",
 						cs.Path, g, ci, col.Type, col.Rep, col.Enc, col.Bits, b, bf.Size(), ch.NumVals))
 					break
 				}
 			}
 			stored := map[string]bool{}
 			for _, pv := range ch.Pages {
+				if !ok {
+					break
+				}
 				for _, b := range pv {
 					if stored[string(b)] {
 						continue
@@ -765,7 +768,7 @@ func c07Model(rep *c07Rep, cs *c07File, col c07Col, ch *c07Chunk, copied int64, 
 	for _, p := range ch.Pages {
 		all = append(all, p...)
 	}
-	if len(all) == 0 || len(all) > 4000 {
+	if len(all) == 0 {
 		return
 	}
 	// distinct values, in order of first occurrence
@@ -777,13 +780,24 @@ func c07Model(rep *c07Rep, cs *c07File, col c07Col, ch *c07Chunk, copied int64, 
 			distinct = append(distinct, b)
 		}
 	}
+	if len(distinct) > c.N(300, 1500) {
+		return
+	}
 	pages := splitPages(distinct, 200)
+	if col.Type == "bool" {
+		// the keys of a boolean page come from its packed bytes: a page of eight
+		// equal values yields exactly that key; padding bits of a partial byte (or
+		// bits of neighbouring rows of a sliced page) may add the key of false
+		pages = nil
+		for _, b := range distinct {
+			pages = append(pages, [][]byte{b, b, b, b, b, b, b, b})
+		}
+	}
 	want := c.Ask(fmt.Sprintf("c07.build %s %d %s", col.tyTok(), nblocks, pagesTok(col, pages)))
 	got := core.Hexs(ch.Filter)
 	if want != got {
 		accept := false
 		if col.Type == "bool" {
-			// padding bits of a boolean page (or bits of neighbouring rows of a sliced page) may add the other key
 			both := c.Ask(fmt.Sprintf("c07.build bool %d 0,1", nblocks))
 			accept = both == got
 		}
@@ -803,12 +817,15 @@ func c07Model(rep *c07Rep, cs *c07File, col c07Col, ch *c07Chunk, copied int64, 
 		c07VmFiles = append(c07VmFiles, fmt.Sprintf("(%s, %d%%nat, %s, %s)", col.coqType(), nblocks, core.CoqList(ps), core.CoqBytes(ch.Filter)))
 	}
 	// sizing, where the writer's rule is known
-	fallback := cs.DictMax > 0 && col.Enc == "dict"
-	if !fallback && (cs.Path == "rows" || cs.Path == "copyrows") {
+	if cs.Path == "rows" || cs.Path == "copyrows" {
 		nv := ch.NumVals
 		rule := "NumValues of the chunk"
-		if col.Enc == "dict" {
-			if col.Type == "f32" || col.Type == "f64" {
+		// a dictionary column sizes the filter for the dictionary, unless it fell
+		// back to PLAIN (DictionaryMaxBytes): then for all the values
+		if col.Enc == "dict" && ch.DictEnc && !ch.PlainEnc {
+			if col.Type == "f32" || col.Type == "f64" || cs.DictMax > 0 {
+				// (with a dictionary limit the fallback may have been decided at the last
+				// page: the filter is then sized for all the values although no PLAIN page follows)
 				nv = -1
 			} else {
 				nv, rule = int64(len(distinct)), "number of dictionary entries"
@@ -1120,6 +1137,10 @@ func c07GenFile(c *core.Ctx, i int) *c07File {
 	cs.Deferred = r.Intn(4) == 0
 	cs.Prefetch = r.Intn(3) == 0
 	cs.SrcBits = r.Intn(3) != 0
+	if r.Intn(5) == 0 {
+		// dictionary columns fall back to PLAIN once the dictionary outgrows the limit
+		cs.DictMax = []int64{16, 64, 256, 2048}[r.Intn(4)]
+	}
 	return cs
 }
 
@@ -1653,9 +1674,16 @@ func runC07(c *core.Ctx) {
 			c.Sample(map[string]any{"kind": "file", "path": cs.Path, "cols": cs.Cols, "rows": "8 x true"})
 		}
 	}
+	t0 := time.Now()
 	c07Hashes(c)
+	t1 := time.Now()
 	c07Filters(c)
+	t2 := time.Now()
 	c07Encodes(c)
+	t3 := time.Now()
+	defer func() {
+		c.Note("time: hashes %.1fs, filters %.1fs, encodes %.1fs, files %.1fs", t1.Sub(t0).Seconds(), t2.Sub(t1).Seconds(), t3.Sub(t2).Seconds(), time.Since(t3).Seconds())
+	}()
 	nFiles := c.N(70, 700)
 	for i := 0; i < nFiles; i++ {
 		cs := c07GenFile(c, i)
@@ -1672,9 +1700,9 @@ func runC07(c *core.Ctx) {
 	c.Vm("Definition ecases : list (ptype * nat * list (list value) * list N) := [\n  " + strings.Join(c07VmFiles, ";\n  ") + "].")
 	c.Vm("Definition eqb_list (a b : list N) : bool := Nat.eqb (length a) (length b) && forallb (fun '(x, y) => N.eqb x y) (combine a b).")
 	c.Vm("Definition eqb_bools (a b : list bool) : bool := Nat.eqb (length a) (length b) && forallb (fun '(x, y) => Bool.eqb x y) (combine a b).")
-	c.Vm("Definition bad_h := filter (fun '(b, h) => negb (N.eqb (xxh64 b) h)) hcases.")
-	c.Vm("Definition bad_f := filter (fun '(n, hs, bytes, probes, res) => let f := filter_insert_bulk (empty_filter n) hs in negb (eqb_list (filter_bytes f) bytes && eqb_bools (map (filter_check f) probes) res && eqb_bools (map (check_split_block bytes) probes) res)) fcases.")
-	c.Vm("Definition bad_e := filter (fun '(t, n, pages, bytes) => negb (eqb_list (filter_bytes (chunk_filter n t pages)) bytes)) ecases.")
+	c.Vm("Definition bad_h := List.filter (fun '(b, h) => negb (N.eqb (xxh64 b) h)) hcases.")
+	c.Vm("Definition bad_f := List.filter (fun '(n, hs, bytes, probes, res) => let f := filter_insert_bulk (empty_filter n) hs in negb (eqb_list (filter_bytes f) bytes && eqb_bools (map (filter_check f) probes) res && eqb_bools (map (check_split_block bytes) probes) res)) fcases.")
+	c.Vm("Definition bad_e := List.filter (fun '(t, n, pages, bytes) => negb (eqb_list (filter_bytes (chunk_filter n t pages)) bytes)) ecases.")
 	c.Vm("Definition mismatches : list nat := map (fun _ => 1%nat) bad_h ++ map (fun _ => 2%nat) bad_f ++ map (fun _ => 3%nat) bad_e.")
 	c.Vm("Definition M := Eval vm_compute in ((length hcases + length fcases + length ecases)%nat, mismatches).\nPrint M.")
 	c.Res.VmCases = len(c07VmHashes) + len(c07VmFilters) + len(c07VmFiles)
